@@ -172,3 +172,132 @@ for _h in HANDLERS:
 # a command no handler exists for, any sub-code
 for _sub in (SUB.SET, SUB.TEST, SUB.READ):
     read_at_contract(f'unknown@{_sub.name}', '', 'ZZZZ', _sub, [0, 1], 'a command without handler: exactly one ERROR')
+
+
+# ---------------------------------------------------------------------------
+# AgProtocol.send_response / send_ok / send_error / send_cme_error (value profile)
+# ---------------------------------------------------------------------------
+model('bumble.hfp:AgProtocol#tx', fields=dict(dlc=Inst('ghost:AgDlc'), cme_error_enabled=Bool))
+AG_TX = Inst('bumble.hfp:AgProtocol#tx')
+TX_GHOST = dict(lines=Int, finals=Int)
+TX_COMMON = dict(prop='C20', ghost=TX_GHOST, modifies=['ghost.lines', 'ghost.finals'], inline=['AgProtocol.send_*'])
+
+
+def one_line(old, ghost, final):
+    return [ghost.lines == old.ghost.lines + 1, ghost.finals == old.ghost.finals + (1 if final else 0)]
+
+
+def one_final_line(old, ghost):
+    return one_line(old, ghost, True)
+
+
+def one_other_line(old, ghost):
+    return one_line(old, ghost, False)
+
+
+contract('bumble.hfp:AgProtocol.send_ok', params=dict(self=AG_TX), ensures=lambda old, ghost: one_line(old, ghost, True),
+         ensures_names=['one-line', 'it-is-a-final-result'], **TX_COMMON)
+contract('bumble.hfp:AgProtocol.send_error', params=dict(self=AG_TX), ensures=lambda old, ghost: one_line(old, ghost, True),
+         ensures_names=['one-line', 'it-is-a-final-result'], **TX_COMMON)
+contract('bumble.hfp:AgProtocol.send_cme_error', params=dict(self=AG_TX, error_code=OneOf(hfp.CmeError.NOT_FOUND, hfp.CmeError.INVALID_INDEX, hfp.CmeError.OPERATION_NOT_SUPPORTED)),
+         # +CME ERROR: <n> when the HF enabled it (AT+CMEE=1), ERROR otherwise: a final result either way
+         ensures=lambda old, ghost: one_line(old, ghost, True), ensures_names=['one-line', 'it-is-a-final-result'], **TX_COMMON)
+for _text, _final in (('OK', True), ('ERROR', True), ('+CME ERROR: 30', True), ('+BRSF: 1023', False), ('RING', False), ('+CIEV: 1,1', False)):
+    contract('bumble.hfp:AgProtocol.send_response', key=f'bumble.hfp:AgProtocol.send_response@{_text}', params=dict(self=AG_TX, response=Const(_text)),
+             ensures=one_final_line if _final else one_other_line,
+             ensures_names=['one-line', 'final-iff-OK/ERROR/+CME ERROR'], **TX_COMMON)
+
+
+# ---------------------------------------------------------------------------
+# HfProtocol._read_at: every response line goes to exactly one queue
+# ---------------------------------------------------------------------------
+def rq_put(ghost, response):
+    assert response is ghost.rsp and ghost.expect_solicited
+    ghost.solicited = ghost.solicited + 1
+
+
+def uq_put(ghost, response):
+    assert response is ghost.rsp and not ghost.expect_solicited
+    ghost.unsolicited = ghost.unsolicited + 1
+
+
+def parse_rsp(ghost, cls, buffer):
+    if ghost.malformed:
+        raise at.AtParsingError('quote following regular character')
+    ghost.nrsp = ghost.nrsp + 1
+    return ghost.rsp
+
+
+model('ghost:RQ', fields={}, methods={'put_nowait': Callback('put_nowait', effect=rq_put)})
+model('ghost:UQ', fields={}, methods={'put_nowait': Callback('put_nowait', effect=uq_put)})
+model('bumble.hfp:AtResponse#g', fields=dict(code=OneOf('OK', 'ERROR', '+CME ERROR', '+BRSF', '+CIEV', '+BIND', 'RING'), parameters=Any))
+PENDING = OneOf(None, 'AT+BRSF=1023', 'AT+BIND?', 'AT+CHUP', 'ATA')
+model('bumble.hfp:HfProtocol#at', fields=dict(read_buffer=ByteArray, pending_command=PENDING, response_queue=Inst('ghost:RQ'), unsolicited_queue=Inst('ghost:UQ')))
+HF_STUBS = {hfp.AtResponse.parse_from.__func__: Callback('parse_from', effect=parse_rsp, raises=(at.AtParsingError,))}
+
+
+def routed(old, ghost):
+    return ghost.solicited + ghost.unsolicited - old.ghost.solicited - old.ghost.unsolicited == ghost.nrsp - old.ghost.nrsp
+
+
+contract(
+    'bumble.hfp:HfProtocol._read_at',
+    prop='C20',
+    params=dict(self=Inst('bumble.hfp:HfProtocol#at'), data=Bytes),
+    ghost=dict(rsp=Inst('bumble.hfp:AtResponse#g'), malformed=Bool, nrsp=Int, solicited=Int, unsolicited=Int, expect_solicited=Bool),
+    # a line answers the pending command iff one is pending and the line is a status code or carries the command's code
+    requires=lambda self, ghost: [iff(ghost.expect_solicited, self.pending_command is not None
+                                      and (ghost.rsp.code in hfp.STATUS_CODES or ghost.rsp.code in self.pending_command))],
+    ensures=lambda self, data, old, ghost: [routed(old, ghost)],
+    ensures_names=['every-line-in-exactly-one-queue'],
+    raises={at.AtParsingError: lambda self, data, old, ghost: [routed(old, ghost), ghost.malformed]},
+    invariants={0: lambda self, old, ghost: [routed(old, ghost)]},
+    decreases={0: lambda self: len(self.read_buffer)},
+    modifies=['self.read_buffer', 'ghost.nrsp', 'ghost.solicited', 'ghost.unsolicited'],
+    stubs=HF_STUBS,
+    note='which queue: asserted in the queue stubs (rq_put / uq_put)',
+)
+
+
+# ---------------------------------------------------------------------------
+# HfProtocol.execute_command: pending_command is released on every exit
+# ---------------------------------------------------------------------------
+import asyncio  # noqa: E402
+
+
+def hf_dlc_write(ghost, text):
+    ghost.written = ghost.written + 1
+
+
+def wait_rsp(ghost, awaitable, timeout):
+    # the command went out once, before the first wait
+    assert ghost.written == ghost.written0 + 1
+    ghost.waits = ghost.waits + 1
+    if ghost.times_out:
+        raise asyncio.TimeoutError()
+
+
+model('ghost:HfDlc', fields={}, methods={'write': Callback('write', effect=hf_dlc_write)})
+model('ghost:RQ#get', fields={}, methods={'get': Callback('get', returns=Any)})
+model('bumble.hfp:AtResponse#r', fields=dict(code=OneOf('OK', 'ERROR', '+BRSF'), parameters=Any))
+model('bumble.hfp:HfProtocol#cmd', fields=dict(command_lock=Any, pending_command=Opt(Str), dlc=Inst('ghost:HfDlc'), response_queue=Inst('ghost:RQ#get')))
+contract(
+    'bumble.hfp:HfProtocol.execute_command',
+    prop='C20',
+    profile='skeleton',
+    params=dict(self=Inst('bumble.hfp:HfProtocol#cmd'), cmd=Str, timeout=Any, response_type=OneOf(*hfp.AtResponseType)),
+    ghost=dict(written=Int, written0=Int, waits=Int, times_out=Bool),
+    requires=lambda ghost: [ghost.written == ghost.written0],
+    ensures=lambda self, ghost: [self.pending_command is None, ghost.written == ghost.written0 + 1],
+    ensures_names=['pending-command-released', 'command-written-once'],
+    raises={hfp.HfpProtocolError: lambda self, ghost: [self.pending_command is None, ghost.written == ghost.written0 + 1],
+            TimeoutError: lambda self, ghost: [self.pending_command is None, ghost.written == ghost.written0 + 1],
+            IndexError: lambda self: [self.pending_command is None]},
+    invariants={0: lambda ghost: [ghost.written == ghost.written0 + 1]},
+    loop_locals={0: {'responses': Any}},
+    modifies=['self.pending_command', 'ghost.written', 'ghost.waits'],
+    stubs={asyncio.wait_for: Callback('wait_for', effect=wait_rsp, returns=Inst('bumble.hfp:AtResponse#r'), is_async=True, raises=(asyncio.TimeoutError,))},
+    with_enter=lambda path, cm: None,
+    with_exit=lambda path, cm: None,
+    note='the loop ends when a status code arrives or asyncio.wait_for times out (peer / event loop: environment)',
+)
